@@ -7,7 +7,7 @@ impl Clone for Duration { fn clone(&self) -> (r: Self) ensures r == *self { Dura
 impl Copy for Duration {}
 pub struct SessionPoolConfig { pub check_interval: Duration, pub idle_timeout: Duration, pub min_idle_sessions: usize }
 pub struct SessionHeartbeatConfig { pub interval: Duration, pub timeout: Duration }
-pub struct Client { pub password_hash: [u8; 32], pub padding: Arc<PaddingFactory>, pub pool_config: SessionPoolConfig }
+pub struct Client { pub password_hash: [u8; 32], pub padding: Arc<PaddingFactory>, pub pool_config: SessionPoolConfig, pub session_pool: Arc<PoolT> }
 pub struct RdHalf; pub struct WrHalf { pub ghost preamble_scheme: Option<Seq<u8>> }
 #[verifier::external_body]
 pub fn send_authentication(w: &mut WrHalf, h: &[u8; 32], p: &Arc<PaddingFactory>) -> (r: Result<()>)
@@ -20,3 +20,22 @@ impl Session {
         ensures s.scheme == padding.raw, s.hb == (match hb { Some(c) => Some((c.interval.s, c.timeout.s)), None => None::<(u64, u64)> })
     { unimplemented!() }
 }
+
+// ---- the tail of create_new_session: numbering, start, hand-over to the pool (TRUSTED views; effect log) ----
+pub enum NsEv { Numbered { seq: u64 }, Started, Pooled }
+pub struct SessionT { pub _p: () }
+impl Clone for SessionT { #[verifier::external_body] fn clone(&self) -> (r: Self) { unimplemented!() } }
+impl SessionT {
+    #[verifier::external_body] pub fn set_seq(&self, seq: u64, fx: &mut Ghost<Seq<NsEv>>) ensures final(fx)@ == old(fx)@.push(NsEv::Numbered { seq }) { }
+    // Session::start_client: queues the client's Settings frame (buffered: it will be the first frame on the wire) and starts the loops
+    #[verifier::external_body] pub fn start_client(self: Arc<Self>, fx: &mut Ghost<Seq<NsEv>>) -> (r: Result<()>)
+        ensures r is Ok ==> final(fx)@ == old(fx)@.push(NsEv::Started), r is Err ==> final(fx)@ == old(fx)@
+    { unimplemented!() }
+}
+pub struct PoolT { pub _p: () }
+impl PoolT {
+    // SessionPool::add_idle_session (group `pool`): from here on other callers can take the session
+    #[verifier::external_body] pub fn add_idle_session(&self, s: Arc<SessionT>, fx: &mut Ghost<Seq<NsEv>>) ensures final(fx)@ == old(fx)@.push(NsEv::Pooled) { }
+}
+pub struct AtomicU64 { pub v: u64 }
+impl AtomicU64 { #[verifier::external_body] pub fn fetch_add(&self, n: u64, o: std::sync::atomic::Ordering, fx: &mut Ghost<Seq<NsEv>>) -> (r: u64) ensures final(fx)@ == old(fx)@ { unimplemented!() } }
